@@ -340,10 +340,7 @@ func checkC06(c *Ctx, r *Report) {
 		changed := eqEdge(isNew, isOld, false)
 		force := func(b *ssa.BasicBlock, s int) bool {
 			// (Type == addConnEvent) true edge followed by (newState == NotConnected) true edge: take the second test's true edge
-			return edgeCmp(func(bo *ssa.BinOp) bool {
-				k, ok := constInt(bo.Y)
-				return ok && k == notConn && bo.Op == token.EQL && isNew(strip(bo.X))
-			}, true)(b, s)
+			return edgeIntBound(func(v ssa.Value) bool { return isNew(strip(v)) }, notConn, notConn, false)(b, s)
 		}
 		r6.guard(f, "Emit", emits, "newState != oldState || newState == NotConnected", anyEdge(changed, force), nil)
 		// the NotConnected-forcing branch is reachable only for add events
